@@ -36,5 +36,5 @@ func checkServerEquality(c *Ctx, scope []*ssa.Function) {
 			}
 		})
 	}
-	c.CheckAt("server-equality", "RegisteredServerEqual-sites", pkgProxy, nCall >= 4 && nEq == 0, "server identity is decided by RegisteredServerEqual at every site")
+	c.CheckAt("server-equality", "RegisteredServerEqual-sites", pkgProxy, nCall >= 2 && nEq == 0, "server identity is decided by RegisteredServerEqual at every site (vacuity floor: the comparator must be in use)")
 }
